@@ -250,6 +250,10 @@ pub fn attach_gate(gate: std::sync::Arc<Gate>, tid: u16) {
     GATE.with(|g| *g.borrow_mut() = Some(gate));
     set_role(ROLE_GATED, tid, tid as u64 + 1);
 }
+/// instrumented steps the calling (gated) thread has made so far
+pub fn my_gate_steps() -> u64 {
+    GATE.with(|g| g.borrow().as_ref().map(|g| g.steps.load(Ordering::Relaxed)).unwrap_or(0))
+}
 pub fn detach_gate() {
     GATE.with(|g| *g.borrow_mut() = None);
     set_role(ROLE_NONE, 0, 0);
